@@ -244,6 +244,7 @@ impl Engine for ChanThreads {
                 sender: Mutex::new(Some(Arc::new(sender))),
                 actors: Mutex::new(actors),
                 clock_ahead_ns: std::sync::atomic::AtomicU64::new(0),
+                storm: Mutex::new(Vec::new()),
             })
         };
         w(&sh, |w| {
